@@ -8,7 +8,8 @@
 //!          alternatives separately, and the re-encoding (serde_json::to_string) of what decoded
 //!   {"id":..,"op":"call","m":<method type>,"frame":<json text>}
 //!       -> serde_json::from_str::<Call<M>>, receive_call::<M>, re-encoding of the decoded call,
-//!          and what send_call puts on the wire for it
+//!          what send_call puts on the wire for it, and (owned method types) the same text through
+//!          serde_json::from_value and serde_json::from_reader
 //!   {"id":..,"op":"proxy","meth":<proxy method>,"frame":<json text>}
 //!       -> result of the generated proxy method on a connection whose peer answers with the frame
 //!
@@ -489,13 +490,39 @@ macro_rules! call_case {
     }};
 }
 
+/// For method types that own their data: the same text decoded through the deserializers that
+/// never lend member names out of the input (`serde_json::from_value` on the parsed text,
+/// `serde_json::from_reader`).  Must agree with `from_str`.
+macro_rules! call_owned {
+    ($frame:expr, $M:ty) => {{
+        let frame: &str = $frame;
+        let mut out = call_case!(frame, $M);
+        let canon = |c: &Call<$M>| {
+            json!({"r": [c.method().canon(), c.oneway().canon(), c.more().canon(), c.upgrade().canon()]})
+        };
+        out["fv"] = match serde_json::from_str::<Value>(frame) {
+            Ok(v) => match serde_json::from_value::<Call<$M>>(v) {
+                Ok(c) => json!({ "v": canon(&c) }),
+                Err(_) => Value::Null,
+            },
+            Err(_) => Value::Null,
+        };
+        out["fr"] = match serde_json::from_reader::<_, Call<$M>>(frame.as_bytes()) {
+            Ok(c) => json!({ "v": canon(&c) }),
+            Err(_) => Value::Null,
+        };
+        out["owned"] = Value::Bool(true);
+        out
+    }};
+}
+
 fn run_call(case: &Value) -> Value {
     let frame = case["frame"].as_str().unwrap();
     match case["m"].as_str().unwrap() {
-        "meth" => call_case!(frame, Meth),
+        "meth" => call_owned!(frame, Meth),
         "methb" => call_case!(frame, MethB),
-        "meths" => call_case!(frame, MethS),
-        "value" => call_case!(frame, Value),
+        "meths" => call_owned!(frame, MethS),
+        "value" => call_owned!(frame, Value),
         "vsmethod" => call_case!(frame, varlink_service::Method),
         x => panic!("unknown method type {x}"),
     }
